@@ -35,6 +35,7 @@ from hypothesis import strategies as st
 from vlib.core import Discard
 from vlib.core import Property
 from vlib.core import Sub
+from vlib.core import Violation
 from vlib.core import check
 from vlib.core import expect_ok
 from vlib.gen import params as gp
@@ -208,6 +209,32 @@ def prop_roundtrip(case):
         if gp.is_free(p):
             p["value"] = float(P.get(p["label"]).value)  # only used for the box / fixed / expression clauses below
     check_values_against_case("roundtrip.moved", "after setting a moved vector", lambda lab: P.get(lab).value, moved, exprs)
+    # a vector of whole numbers handed over as integers (a list of python ints, an int64 array): the same numbers
+    ks = []
+    for a, lo_, hi_ in zip(x2, lb, ub):
+        k = int(round(float(np.clip(a, -20.0, 20.0))))
+        k = k if lo_ <= k <= hi_ else (int(math.ceil(lo_)) if math.isfinite(lo_) and math.ceil(lo_) <= hi_ else (int(math.floor(hi_)) if math.isfinite(hi_) and math.floor(hi_) >= lo_ else None))
+        ks.append(k)
+    if ks and all(k is not None and abs(k) <= 300 for k in ks):
+        want_int = {lab: (math.exp(k) if byl[lab].get("nn") else float(k)) for lab, k in zip(free, ks)}
+        plain_i = {p["label"]: want_int.get(p["label"], p["value"]) for p in case["params"] if p.get("expr") is None}
+        try:
+            ex.evaluate_all(exprs, plain_i)
+            in_dom = True
+        except ex.OutOfDomain:
+            in_dom = False
+        if in_dom:
+            for form, vec in (("int_list", [int(k) for k in ks]), ("int64_array", np.array(ks, dtype=np.int64))):
+                try:
+                    with expect_ok("roundtrip.set_integers"):
+                        P.set_from_label_and_value_arrays(labels, vec)
+                except Violation as v:
+                    if ":TypeError@" in v.clause:
+                        continue  # a plain parameter refuses a value that is not a float: a clean refusal, nothing to compare
+                    raise
+                for lab in free:
+                    got = float(P.get(lab).value)
+                    check(ex.close(got, want_int[lab], RTOL), "roundtrip.integer_vector", lambda: f"{form}: {lab} <- {ks[free.index(lab)]}: value {got!r}, expected {want_int[lab]!r} (non_negative={byl[lab].get('nn')})")
     kinds, nontrivial = kinds_tags(case)
     tags = [f"kind:{k}" for k in kinds] + [f"construct:{case['construct']}"]
     if case.get("group_defaults"):
